@@ -94,12 +94,20 @@ type pstate struct {
 	visits  map[*ssa.BasicBlock]int
 	looped  bool
 	params  map[*ssa.Parameter]string
-	epoch   int // incremented at every lock/unlock: reads of shared memory in different epochs are different values
+	epoch   int                    // incremented at every lock/unlock: reads of shared memory in different epochs are different values
+	tuples  map[ssa.Value][]string // results of inlined multi-value calls
+	depth   int                    // inlining depth
 }
 
 func (s *pstate) clone() *pstate {
 	n := &pstate{fn: s.fn, mem: map[string]string{}, phi: map[*ssa.Phi]string{}, vals: map[ssa.Value]string{},
-		visits: map[*ssa.BasicBlock]int{}, looped: s.looped, params: s.params, epoch: s.epoch}
+		visits: map[*ssa.BasicBlock]int{}, looped: s.looped, params: map[*ssa.Parameter]string{}, epoch: s.epoch, tuples: map[ssa.Value][]string{}, depth: s.depth}
+	for k, v := range s.params {
+		n.params[k] = v
+	}
+	for k, v := range s.tuples {
+		n.tuples[k] = v
+	}
 	for k, v := range s.mem {
 		n.mem[k] = v
 	}
@@ -128,26 +136,30 @@ func BuildPathTable(fn *ssa.Function, opts PathOpts) *PathTable {
 		return t
 	}
 	st := &pstate{fn: fn, mem: map[string]string{}, phi: map[*ssa.Phi]string{}, vals: map[ssa.Value]string{},
-		visits: map[*ssa.BasicBlock]int{}, params: map[*ssa.Parameter]string{}}
+		visits: map[*ssa.BasicBlock]int{}, params: map[*ssa.Parameter]string{}, tuples: map[ssa.Value][]string{}}
 	for i, p := range fn.Params {
 		st.params[p] = fmt.Sprintf("p%d", i)
 	}
-	var run func(st *pstate, b *ssa.BasicBlock, pred *ssa.BasicBlock)
-	run = func(st *pstate, b *ssa.BasicBlock, pred *ssa.BasicBlock) {
+	type cont func(st *pstate, rets []string)
+	var runFrom func(st *pstate, b *ssa.BasicBlock, pred *ssa.BasicBlock, start int, k cont)
+	run := func(st *pstate, b *ssa.BasicBlock, pred *ssa.BasicBlock, k cont) { runFrom(st, b, pred, 0, k) }
+	runFrom = func(st *pstate, b *ssa.BasicBlock, pred *ssa.BasicBlock, start int, k cont) {
 		if t.Truncated {
 			return
 		}
-		st.visits[b]++
-		if st.visits[b] > 1 {
-			st.looped = true
-			if st.visits[b] > 1+opts.LoopBound {
-				// abandon this path: it is a further iteration of a loop already
-				// summarised by the bounded unrolling
-				return
+		if start == 0 {
+			st.visits[b]++
+			if st.visits[b] > 1 {
+				st.looped = true
+				if st.visits[b] > 1+opts.LoopBound {
+					// abandon this path: it is a further iteration of a loop already
+					// summarised by the bounded unrolling
+					return
+				}
 			}
 		}
 		// phis first (parallel assignment)
-		if pred != nil {
+		if pred != nil && start == 0 {
 			idx := -1
 			for i, p := range b.Preds {
 				if p == pred {
@@ -169,7 +181,10 @@ func BuildPathTable(fn *ssa.Function, opts PathOpts) *PathTable {
 				delete(st.vals, k)
 			}
 		}
-		for _, ins := range b.Instrs {
+		for idx, ins := range b.Instrs {
+			if idx < start {
+				continue
+			}
 			switch x := ins.(type) {
 			case *ssa.Phi:
 				continue
@@ -192,6 +207,30 @@ func BuildPathTable(fn *ssa.Function, opts PathOpts) *PathTable {
 				if _, op := lockCallInfo(&x.Call); op != "" {
 					st.epoch++
 				}
+				if callee := x.Call.StaticCallee(); callee != nil && st.depth < 2 && inlinable(callee, fn, opts) {
+					// a helper that did not exist on the reference tree (an extracted function): its body is
+					// entered so that the table is the one of the code before the extraction
+					for i, prm := range callee.Params {
+						if i < len(x.Call.Args) {
+							st.params[prm] = st.term(x.Call.Args[i])
+						}
+					}
+					st.depth++
+					for _, cb := range callee.Blocks {
+						delete(st.visits, cb) // a second call of the same helper is not a loop
+					}
+					call, blk, next := x, b, idx+1
+					run(st, callee.Blocks[0], nil, func(st2 *pstate, rets []string) {
+						st2.depth--
+						if len(rets) == 1 {
+							st2.vals[call] = rets[0]
+						} else {
+							st2.tuples[call] = rets
+						}
+						runFrom(st2, blk, pred, next, k)
+					})
+					return
+				}
 				ct := st.callTerm(&x.Call)
 				st.vals[x] = ct
 				st.effects = append(st.effects, Effect{"call", ct, x.Pos()})
@@ -207,6 +246,14 @@ func BuildPathTable(fn *ssa.Function, opts PathOpts) *PathTable {
 					st.effects = append(st.effects, Effect{"lookup", lt, x.Pos()})
 				}
 			case *ssa.Return:
+				if k != nil {
+					var rets []string
+					for _, r := range x.Results {
+						rets = append(rets, st.term(r))
+					}
+					k(st, rets)
+					return
+				}
 				p := Path{Atoms: st.atoms, Effects: st.effects, Exit: "return", Looped: st.looped, Pos: x.Pos(), Mem: st.mem}
 				for _, r := range x.Results {
 					p.Ret = append(p.Ret, st.term(r))
@@ -220,7 +267,7 @@ func BuildPathTable(fn *ssa.Function, opts PathOpts) *PathTable {
 				t.Paths = append(t.Paths, Path{Atoms: st.atoms, Effects: st.effects, Exit: "panic", Ret: []string{st.term(x.X)}, Looped: st.looped, Pos: x.Pos(), Mem: st.mem})
 				return
 			case *ssa.Jump:
-				run(st, b.Succs[0], b)
+				run(st, b.Succs[0], b, k)
 				return
 			case *ssa.If:
 				cond := st.term(x.Cond)
@@ -228,32 +275,54 @@ func BuildPathTable(fn *ssa.Function, opts PathOpts) *PathTable {
 				if atom == "true" || atom == "false" {
 					v := (atom == "true") == pol
 					if v {
-						run(st, b.Succs[0], b)
+						run(st, b.Succs[0], b, k)
 					} else {
-						run(st, b.Succs[1], b)
+						run(st, b.Succs[1], b, k)
 					}
 					return
 				}
 				if v, known := st.known(atom); known {
 					if v == pol {
-						run(st, b.Succs[0], b)
+						run(st, b.Succs[0], b, k)
 					} else {
-						run(st, b.Succs[1], b)
+						run(st, b.Succs[1], b, k)
 					}
 					return
 				}
 				// fork
 				s2 := st.clone()
 				st.atoms = append(st.atoms, Atom{atom, pol})
-				run(st, b.Succs[0], b)
+				run(st, b.Succs[0], b, k)
 				s2.atoms = append(s2.atoms, Atom{atom, !pol})
-				run(s2, b.Succs[1], b)
+				run(s2, b.Succs[1], b, k)
 				return
 			}
 		}
 	}
-	run(st, fn.Blocks[0], nil)
+	run(st, fn.Blocks[0], nil, nil)
 	return t
+}
+
+// inlinable: callee is a module function with a body that is not known from the
+// reference tree (reffuncs.go) - i.e. a helper introduced since, typically by an
+// "extract function" refactoring - or is listed in opts.Inline; it is small and
+// is not the function being tabled.
+func inlinable(callee, root *ssa.Function, opts PathOpts) bool {
+	if callee == root || len(callee.Blocks) == 0 || len(callee.Blocks) > 60 {
+		return false
+	}
+	name := funcName(callee)
+	if opts.Inline[name] {
+		return true
+	}
+	if callee.Pkg == nil || !strings.HasPrefix(callee.Pkg.Pkg.Path(), Mod) {
+		return false
+	}
+	if callee.Object() == nil {
+		return false
+	}
+	_, known := referenceFuncs[name]
+	return !known
 }
 
 // known reports the value the path already fixes for atom, using the two
@@ -328,6 +397,13 @@ func normAtom(t string) (string, bool) {
 				if i := topLevelOp(in, " != "); i >= 0 {
 					t = "(" + in[:i] + " == " + in[i+4:] + ")"
 					pol = !pol
+				} else if i := topLevelOp(in, " <= "); i >= 0 {
+					// a <= b  is  !(a > b): one canonical form for the four order comparisons
+					t = "(" + in[:i] + " > " + in[i+4:] + ")"
+					pol = !pol
+				} else if i := topLevelOp(in, " >= "); i >= 0 {
+					t = "(" + in[:i] + " < " + in[i+4:] + ")"
+					pol = !pol
 				}
 			}
 		}
@@ -336,6 +412,18 @@ func normAtom(t string) (string, bool) {
 	// constant on the right
 	if l, r, ok := splitTop(t, " == "); ok && isConstTerm(l) && !isConstTerm(r) {
 		t = "(" + r + " == " + l + ")"
+	}
+	if l, r, ok := splitTop(t, " < "); ok && isConstTerm(l) && !isConstTerm(r) {
+		t = "(" + r + " > " + l + ")"
+	} else if l, r, ok := splitTop(t, " > "); ok && isConstTerm(l) && !isConstTerm(r) {
+		t = "(" + r + " < " + l + ")"
+	}
+	// a length is never negative: len(x) > 0 is !(len(x) == 0), len(x) < 1 is len(x) == 0
+	if l, r, ok := splitTop(t, " > "); ok && r == "0" && strings.HasPrefix(l, "len(") && balanced(l) {
+		t = "(" + l + " == 0)"
+		pol = !pol
+	} else if l, r, ok := splitTop(t, " < "); ok && r == "1" && strings.HasPrefix(l, "len(") && balanced(l) {
+		t = "(" + l + " == 0)"
 	}
 	return t, pol
 }
@@ -468,7 +556,7 @@ func (s *pstate) term(v ssa.Value) string {
 		}
 		return "param:" + x.Name()
 	case *ssa.FreeVar:
-		return "&free:" + x.Name()
+		return "&free:" + canonFreeVar(x, 0)
 	case *ssa.Global:
 		if x.Pkg != nil {
 			return "&" + strings.ReplaceAll(x.Pkg.Pkg.Path(), Mod+"/", "") + "." + x.Name()
@@ -569,6 +657,9 @@ func (s *pstate) term(v ssa.Value) string {
 		}
 		return s.term(x.X) + ".(" + typeShort(x.AssertedType) + ")"
 	case *ssa.Extract:
+		if tup, ok := s.tuples[x.Tuple]; ok && x.Index < len(tup) {
+			return tup[x.Index]
+		}
 		return s.term(x.Tuple) + "#" + fmt.Sprint(x.Index)
 	case *ssa.Slice:
 		lo, hi := "", ""
@@ -829,4 +920,135 @@ func (t *PathTable) Dump() string {
 		b.WriteString("  TRUNCATED\n")
 	}
 	return b.String()
+}
+
+// canonFreeVar names a captured variable by what the enclosing function binds
+// it to - "outer.pN" for its N-th parameter, the term of the single value stored
+// into it otherwise - so that renaming the captured local does not change the
+// closure's table. A variable assigned more than once keeps its source name.
+func canonFreeVar(fv *ssa.FreeVar, depth int) string {
+	fn := fv.Parent()
+	if fn == nil || fn.Parent() == nil || depth > 3 {
+		return fv.Name()
+	}
+	parent := fn.Parent()
+	idx := -1
+	for i, v := range fn.FreeVars {
+		if v == fv {
+			idx = i
+		}
+	}
+	if idx < 0 {
+		return fv.Name()
+	}
+	var binding ssa.Value
+	for _, b := range parent.Blocks {
+		for _, in := range b.Instrs {
+			if mc, ok := in.(*ssa.MakeClosure); ok && mc.Fn == ssa.Value(fn) && idx < len(mc.Bindings) {
+				binding = mc.Bindings[idx]
+			}
+		}
+	}
+	switch b := binding.(type) {
+	case *ssa.FreeVar:
+		return canonFreeVar(b, depth+1)
+	case *ssa.Alloc:
+		var stored []ssa.Value
+		if refs := b.Referrers(); refs != nil {
+			for _, r := range *refs {
+				if st, ok := r.(*ssa.Store); ok && st.Addr == ssa.Value(b) {
+					stored = append(stored, st.Val)
+				}
+			}
+		}
+		// a closure that assigns the variable makes it multi-valued
+		for _, af := range parent.AnonFuncs {
+			for i, v := range af.FreeVars {
+				_ = i
+				if assignsFreeVar(af, v) && bindingOf(parent, af, v) == ssa.Value(b) {
+					return fv.Name()
+				}
+			}
+		}
+		if len(stored) != 1 {
+			// a parameter that is given a default when unset: named after the parameter
+			var prm *ssa.Parameter
+			n := 0
+			for _, v := range stored {
+				if q, ok := v.(*ssa.Parameter); ok {
+					prm = q
+					n++
+				}
+			}
+			if n == 1 {
+				for i, q := range parent.Params {
+					if q == prm {
+						return fmt.Sprintf("⟨outer.p%d*⟩", i)
+					}
+				}
+			}
+			return fv.Name()
+		}
+		scratch := &pstate{fn: parent, mem: map[string]string{}, phi: map[*ssa.Phi]string{}, vals: map[ssa.Value]string{},
+			visits: map[*ssa.BasicBlock]int{}, params: map[*ssa.Parameter]string{}, tuples: map[ssa.Value][]string{}}
+		for i, p := range parent.Params {
+			scratch.params[p] = fmt.Sprintf("outer.p%d", i)
+		}
+		// single-assignment locals of the enclosing function are read through
+		for _, pb := range parent.Blocks {
+			for _, in := range pb.Instrs {
+				st, ok := in.(*ssa.Store)
+				if !ok {
+					continue
+				}
+				al, ok := st.Addr.(*ssa.Alloc)
+				if !ok || al.Referrers() == nil {
+					continue
+				}
+				n := 0
+				for _, r := range *al.Referrers() {
+					if s2, ok := r.(*ssa.Store); ok && s2.Addr == ssa.Value(al) {
+						n++
+					}
+				}
+				if n == 1 {
+					scratch.mem[scratch.term(al)] = scratch.term(st.Val)
+				}
+			}
+		}
+		t := scratch.term(stored[0])
+		if len(t) > 160 || strings.Contains(t, "phi?") || strings.Contains(t, "zero:") {
+			return fv.Name()
+		}
+		return "⟨" + t + "⟩"
+	}
+	return fv.Name()
+}
+
+func assignsFreeVar(fn *ssa.Function, fv *ssa.FreeVar) bool {
+	for _, b := range fn.Blocks {
+		for _, in := range b.Instrs {
+			if st, ok := in.(*ssa.Store); ok && st.Addr == ssa.Value(fv) {
+				return true
+			}
+		}
+	}
+	return false
+}
+
+func bindingOf(parent, fn *ssa.Function, fv *ssa.FreeVar) ssa.Value {
+	idx := -1
+	for i, v := range fn.FreeVars {
+		if v == fv {
+			idx = i
+		}
+	}
+	for _, b := range parent.Blocks {
+		for _, in := range b.Instrs {
+			if mc, ok := in.(*ssa.MakeClosure); ok && mc.Fn == ssa.Value(fn) && idx >= 0 && idx < len(mc.Bindings) {
+				return mc.Bindings[idx]
+			}
+		}
+	}
+	return nil
 }
